@@ -467,6 +467,9 @@ def filter_scenario(rng, n_ops=10, tag='wf', ops=None):
     os.makedirs(os.path.join(d, 'conf'))
     open(os.path.join(d, 'conf', 'settings.ini'), 'w').write('s0\n')
     open(os.path.join(d, 'conf', 'other.ini'), 'w').write('o0\n')
+    os.makedirs(os.path.join(d, 'side', 'subdir'))
+    open(os.path.join(d, 'side', 'one.ini'), 'w').write('1\n')
+    open(os.path.join(d, 'side', 'subdir', 'x.ini'), 'w').write('x\n')
     os.makedirs(os.path.join(d, 'mix', 'deep'))
     open(os.path.join(d, 'mix', 'inner.cfg'), 'w').write('i0\n')
     open(os.path.join(d, 'mix', 'deep', 'd.cfg'), 'w').write('d0\n')
@@ -483,11 +486,13 @@ def filter_scenario(rng, n_ops=10, tag='wf', ops=None):
                 '  onef:\n    input:\n      - paths: [conf/settings.ini]\n    build: echo "start onef $$" >> %s\n'
                 # `mixf` declares a directory AND a file inside it: the file is covered by the directory's recursive watch
                 '  mixf:\n    input:\n      - paths: [%s]\n    build: echo "start mixf $$" >> %s\n'
-                % (trace, trace, trace, rng.choice(['mix, mix/inner.cfg', 'mix/inner.cfg, mix']), trace))
+                # `sidef` declares a file and a DIRECTORY next to it (both in the directory that is watched for the file)
+                '  sidef:\n    input:\n      - paths: [side/one.ini, side/subdir]\n    build: echo "start sidef $$" >> %s\n'
+                % (trace, trace, trace, rng.choice(['mix, mix/inner.cfg', 'mix/inner.cfg, mix']), trace, trace))
     e = dict(os.environ)
     e.pop('ZINOMA_VERIF', None)
     errf = open(os.path.join(d, 'stderr'), 'w+')
-    proc = subprocess.Popen([vf.ZINOMA, '--watch', 'filt', 'anyf', 'onef', 'mixf'], cwd=d, env=e, stdout=errf, stderr=subprocess.STDOUT,
+    proc = subprocess.Popen([vf.ZINOMA, '--watch', 'filt', 'anyf', 'onef', 'mixf', 'sidef'], cwd=d, env=e, stdout=errf, stderr=subprocess.STDOUT,
                             start_new_session=True, preexec_fn=vf.reset_signals)
     V = {}
     log = []
@@ -506,30 +511,30 @@ def filter_scenario(rng, n_ops=10, tag='wf', ops=None):
         return runs(t) >= n
 
     def quiet(seconds):
-        c0 = (runs('filt'), runs('anyf'), runs('onef'), runs('mixf'))
+        c0 = (runs('filt'), runs('anyf'), runs('onef'), runs('mixf'), runs('sidef'))
         t0 = time.time()
         while time.time() - t0 < seconds:
             time.sleep(0.05)
-            c1 = (runs('filt'), runs('anyf'), runs('onef'), runs('mixf'))
+            c1 = (runs('filt'), runs('anyf'), runs('onef'), runs('mixf'), runs('sidef'))
             if c1 != c0:
                 c0 = c1
                 t0 = time.time()
         return c0
     try:
-        if not (wait_runs('filt', 1, 10) and wait_runs('anyf', 1, 10) and wait_runs('onef', 1, 10) and wait_runs('mixf', 1, 10)):
-            V.setdefault('C16', []).append('initial pass did not run the four targets')
+        if not (wait_runs('filt', 1, 10) and wait_runs('anyf', 1, 10) and wait_runs('onef', 1, 10) and wait_runs('mixf', 1, 10) and wait_runs('sidef', 1, 10)):
+            V.setdefault('C16', []).append('initial pass did not run the five targets')
         quiet(1.0)
         seq = 0
         relevant_ops = ['modify', 'create', 'rename_over', 'move_in', 'rename_away', 'delete', 'modify_sub', 'nonutf8_then_modify',
                         'any_modify', 'any_create_tmpname_not', 'any_nonutf8', 'modify_md', 'modify_docs_md', 'modify', 'modify_md',
                         'file_modify', 'file_rename_over', 'file_rename_over', 'file_modify', 'mix_file_rename_over', 'mix_newsub',
-                        'mix_deep_modify']
+                        'mix_deep_modify', 'side_file_rename_over', 'side_sub_modify', 'side_dir_rename_away']
         irrelevant_ops = ['other_ext', 'tilde', 'swp', 'zinoma_dir', 'outside', 'dat_rename', 'any_tilde', 'any_swp', 'any_zinoma',
                           'docs_txt', 'file_sibling']
         for opi in range(len(ops) if ops else n_ops):
             seq += 1
             op = ops[opi] if ops else rng.choice(relevant_ops if rng.random() < 0.55 else irrelevant_ops)
-            before = (runs('filt'), runs('anyf'), runs('onef'), runs('mixf'))
+            before = (runs('filt'), runs('anyf'), runs('onef'), runs('mixf'), runs('sidef'))
             target = None          # which target must run
             src = os.path.join(d, 'src')
             if op == 'modify':
@@ -553,16 +558,16 @@ def filter_scenario(rng, n_ops=10, tag='wf', ops=None):
             elif op == 'rename_away':
                 p = os.path.join(src, 'away%d.txt' % seq)
                 open(p, 'w').write('x\n')
-                wait_runs('filt', before[0] + 1, 5); quiet(0.6); before = (runs('filt'), runs('anyf'), runs('onef'), runs('mixf'))
+                wait_runs('filt', before[0] + 1, 5); quiet(0.6); before = (runs('filt'), runs('anyf'), runs('onef'), runs('mixf'), runs('sidef'))
                 os.replace(p, os.path.join(src, 'away%d.bak' % seq)); target = 'filt'
             elif op == 'delete':
                 p = os.path.join(src, 'del%d.txt' % seq)
                 open(p, 'w').write('x\n')
-                wait_runs('filt', before[0] + 1, 5); quiet(0.6); before = (runs('filt'), runs('anyf'), runs('onef'), runs('mixf'))
+                wait_runs('filt', before[0] + 1, 5); quiet(0.6); before = (runs('filt'), runs('anyf'), runs('onef'), runs('mixf'), runs('sidef'))
                 os.remove(p); target = 'filt'
             elif op == 'nonutf8_then_modify':
                 open(os.path.join(src.encode(), b'caf\xe9-\xff\xfe.dat'), 'w').write('x\n')
-                quiet(0.6); before = (runs('filt'), runs('anyf'), runs('onef'), runs('mixf'))
+                quiet(0.6); before = (runs('filt'), runs('anyf'), runs('onef'), runs('mixf'), runs('sidef'))
                 open(os.path.join(src, 'a.txt'), 'w').write('a%d\n' % seq); target = 'filt'
             elif op == 'file_modify':
                 open(os.path.join(d, 'conf', 'settings.ini'), 'w').write('s%d\n' % seq); target = 'onef'
@@ -578,10 +583,25 @@ def filter_scenario(rng, n_ops=10, tag='wf', ops=None):
             elif op == 'mix_newsub':
                 # a directory created after watching began, inside the declared directory: its files are inputs too
                 os.makedirs(os.path.join(d, 'mix', 'sub%d' % seq))
-                wait_runs('mixf', before[3] + 1, 5); quiet(0.6); before = (runs('filt'), runs('anyf'), runs('onef'), runs('mixf'))
+                wait_runs('mixf', before[3] + 1, 5); quiet(0.6); before = (runs('filt'), runs('anyf'), runs('onef'), runs('mixf'), runs('sidef'))
                 open(os.path.join(d, 'mix', 'sub%d' % seq, 'n.cfg'), 'w').write('n\n'); target = 'mixf'
             elif op == 'mix_deep_modify':
                 open(os.path.join(d, 'mix', 'deep', 'd.cfg'), 'w').write('d%d\n' % seq); target = 'mixf'
+            elif op == 'side_file_rename_over':
+                tmp = os.path.join(d, 'elsewhere', 'o.%d' % seq)
+                open(tmp, 'w').write('%d\n' % seq)
+                os.replace(tmp, os.path.join(d, 'side', 'one.ini')); target = 'sidef'
+            elif op == 'side_sub_modify':
+                if os.path.isdir(os.path.join(d, 'side', 'subdir')):
+                    open(os.path.join(d, 'side', 'subdir', 'x.ini'), 'w').write('x%d\n' % seq); target = 'sidef'
+                else:
+                    op = 'side_sub_modify(skipped: directory renamed away earlier)'
+            elif op == 'side_dir_rename_away':
+                # the declared directory itself is renamed away: its files are no longer inputs
+                if os.path.isdir(os.path.join(d, 'side', 'subdir')):
+                    os.replace(os.path.join(d, 'side', 'subdir'), os.path.join(d, 'elsewhere', 'subdir%d' % seq)); target = 'sidef'
+                else:
+                    op = 'side_dir_rename_away(skipped: already done)'
             elif op == 'file_sibling':
                 open(os.path.join(d, 'conf', 'other.ini'), 'w').write('o%d\n' % seq)
             elif op == 'any_modify':
@@ -616,13 +636,13 @@ def filter_scenario(rng, n_ops=10, tag='wf', ops=None):
                 open(os.path.join(d, 'any', '.zinoma', 'w%d' % seq), 'w').write('t\n')
             log.append(op)
             if target:
-                idx = ['filt', 'anyf', 'onef', 'mixf'].index(target)
+                idx = ['filt', 'anyf', 'onef', 'mixf', 'sidef'].index(target)
                 if not wait_runs(target, before[idx] + 1, 5):
                     V.setdefault('C16', []).append('operation %r (#%d) on a declared input did not trigger %s within 5s (ops so far: %s)'
                                                    % (op, seq, target, log))
                     break
                 after = quiet(0.6)
-                if any(after[o] != before[o] for o in range(4) if o != idx):
+                if any(after[o] != before[o] for o in range(5) if o != idx):
                     V.setdefault('C16', []).append('operation %r (#%d) triggered an unrelated target too: runs %s -> %s'
                                                    % (op, seq, before, after))
             else:
@@ -632,7 +652,7 @@ def filter_scenario(rng, n_ops=10, tag='wf', ops=None):
                                                    % (op, seq, before, after, log))
         if proc.poll() is not None:
             V.setdefault('C16', []).append('zinoma --watch exited with %s' % proc.returncode)
-        obs = {'ops': log, 'runs': (runs('filt'), runs('anyf'), runs('onef'), runs('mixf'))}
+        obs = {'ops': log, 'runs': (runs('filt'), runs('anyf'), runs('onef'), runs('mixf'), runs('sidef'))}
         return obs, V
     finally:
         try:
